@@ -1,5 +1,6 @@
 (* C04 driver. One case per line:
-   E <k> {<pattern> <method>}*k <reg> <nn> {<name>}*nn <nreq> {<path> <method> <who> <any> {<value>}*nn}*nreq
+   E <k> {<pattern> <method>}*k <reg> <nn> {<name>}*nn <nreq> {<raw> <path> <method> <who> <any> {<value>}*nn}*nreq
+   (<raw>: the request line's target when the request was read by net/http, informational; routing is on <path>)
    reg = ok | rej<i>        (Handle of route i panicked; no requests follow)
    who = r<i> | nr | anything else (panic, calls<n>, badinfo) = forbidden outcome
    Output: on a failure the case is REDUCED to the table and the first failing request, itself a valid case
@@ -26,12 +27,12 @@ let () =
         let nreq = int_of_string (next ()) in
         let reduced i =
           if nreq = 0 then line else begin
-            let per = 4 + nn in
+            let per = 5 + nn in
             let hdr = Array.to_list (Array.sub a 0 hdr_end) in
             let rq = Array.to_list (Array.sub a (hdr_end + 1 + i * per) per) in
             String.concat " " ("E" :: hdr @ ["1"] @ rq) end in
         let qs = List.init nreq (fun _ ->
-          let p = next () in let m = next () in let w = next () in let any = next () in
+          let _raw = next () in let p = next () in let m = next () in let w = next () in let any = next () in
           let vals = List.init nn (fun _ -> bytes_of_hex (next ())) in
           let who =
             if w = "nr" then (incr noroute; WNoRoute)
